@@ -589,3 +589,116 @@ def rule_run_skip_bound(col, facts):
     col.check(R, "peek_n:loop-bound", bad == 0,
               "%d of %d run-skipping loops do not compare the bare index with the buffer length (`index + 1 < len` stops one separator short of the end of the buffer)" % (bad, n), where)
     col.floor(R, "run-skipping loop bounds", n, 20)
+
+
+def _ev_class(e, cls):
+    """Truth value of a byte-class predicate for a byte of class `cls` (digit / sep / neutral)."""
+    e = strip_casts(e)
+    if e[0] == "k" and isinstance(e[1], bool):
+        return e[1]
+    if e[0] == "call" and last_seg(e[1]) == "is_digit":
+        return cls == "digit"
+    if e[0] == "call" and last_seg(e[1]) == "is_digit_separator":
+        return cls == "sep"
+    if e[0] == "un" and e[1] == "Not":
+        return not _ev_class(e[2], cls)
+    if e[0] == "bin" and e[1] in ("BitAnd", "BitOr"):
+        a, b = _ev_class(e[2], cls), _ev_class(e[3], cls)
+        return (a and b) if e[1] == "BitAnd" else (a or b)
+    raise _Unknown(show(e))
+
+
+def class_value(g, cls):
+    """Value of the closure g (|&x| ..is_digit(x)..is_digit_separator(x)..) for a byte of class `cls`."""
+    from rules.core import resolve_env
+    rets = {i for i, b in enumerate(g.blocks) if g.live(i) and b["t"]["k"] == "return"}
+    vals = set()
+    for t, atoms, env in enum_paths(g, 0, rets, want_env=True, resolve_atoms=True):
+        if all(_ev_class(e, cls) == p for e, p in atoms):
+            r = env.get(0)
+            if r is None:
+                raise _Unknown("no result")
+            vals.add(r[1] if r[0] == "const" else _ev_class(resolve_env(r[1], env), cls))
+    if len(vals) != 1:
+        raise _Unknown("ambiguous %s" % sorted(vals))
+    return vals.pop()
+
+
+def rule_single_never_splits_run(col, facts):
+    """SIB-run (single): in the arms of peek() for flag sets *without* C (peek_1!), the cursor is moved over a
+    separator only on paths whose look-around tests exclude "the next byte is a separator".  Otherwise the first separator
+    of a run that the flags do not enable is consumed and the cursor is left between two separators
+    (fraction flags I|L: partial "1.__5" consumed 3 bytes, with L or I|L|T 2).  The siblings is_l / is_lt /
+    is_ilt test it; the rule evaluates every path to the skip over the 4 x 4 classes (digit, separator, other
+    byte, end of buffer) of the two neighbours."""
+    if "format" not in facts.config:
+        return
+    from rules.core import ShapeUnknown
+    R = "SIB-run"
+    CL = ("digit", "sep", "neutral", "eob")
+    n = 0
+    for it in COMPONENTS:
+        f = find_impl_fn(facts, it, "iterator::DigitsIter", "peek")
+        sw = None
+        for i, b in enumerate(f.blocks):
+            t = b["t"]
+            if t["k"] == "switch" and len(t["v"]) >= 10 and f.live(i):
+                sw = (i, t)
+        if sw is None:
+            raise ShapeUnknown("no 15-way match on the separator flags in %s::peek" % it)
+        bits = {l: facts.const_value(FL + "%s_%s_DIGIT_SEPARATOR" % (COMPONENTS[it][0], name)) for l, name in LETTERS}
+        cache = {}
+        for v, tgt in sw[1]["v"]:
+            letters = "".join(l for l, _n in LETTERS if v & bits[l])
+            if not letters or "c" in letters:
+                continue
+            skips = {bb for bb, c, a, d, tt in f.calls() if last_seg(callee_name(c)) in ("set_cursor", "step_unchecked", "step_by_unchecked") and f.dominates(tgt, bb)}
+            if not skips:
+                raise ShapeUnknown("%s::peek arm {%s}: no cursor move found" % (it, letters.upper()))
+            for tb, atoms, env in enum_paths(f, tgt, skips, want_env=True, resolve_atoms=True):
+                cons = []      # (side, default, closure fn, polarity)
+                first = None
+                for e, p in atoms:
+                    e = strip_casts(e)
+                    if isinstance(p, bool) and e[0] == "bin" and e[1] in ("Eq", "Ne") and any(last_seg(c[1]) == "current_count" for c in expr_calls(e)):
+                        first = p if e[1] == "Eq" else (not p)
+                        continue
+                    if e[0] == "call" and last_seg(e[1]) == "map_or" and len(e[2]) == 3:
+                        g0 = strip_casts(e[2][0])
+                        side = None
+                        for c in expr_calls(g0):
+                            if last_seg(c[1]) == "wrapping_add":
+                                side = "next"
+                            elif last_seg(c[1]) == "wrapping_sub":
+                                side = "prev"
+                        dflt = strip_casts(e[2][1])
+                        clo = strip_casts(e[2][2])
+                        if side and dflt[0] == "k" and isinstance(dflt[1], bool) and clo[0] == "agg" and isinstance(clo[1], tuple) and clo[1][0] == "closure" and clo[1][1] in facts.by_short:
+                            cons.append((side, dflt[1], clo[1][1], p))
+                            continue
+                        raise ShapeUnknown("%s::peek arm {%s}: look-around `%s` not recognised" % (it, letters.upper(), show(e)[:80]))
+                    s = show(e)
+                    if "get(" in s and "cursor(" not in s and "branch(get" not in s:
+                        raise ShapeUnknown("%s::peek arm {%s}: look-around `%s` not recognised" % (it, letters.upper(), s[:80]))
+                def val(g, cls, dflt):
+                    if cls == "eob":
+                        return dflt
+                    if (g, cls) not in cache:
+                        try:
+                            cache[(g, cls)] = class_value(facts.by_short[g][0], cls)
+                        except _Unknown as ex:
+                            raise ShapeUnknown("look-around closure %s: %s" % (g, ex))
+                    return cache[(g, cls)]
+                bad = []
+                for pc in CL:
+                    for nc in CL:
+                        if all(val(g, pc if side == "prev" else nc, dflt) == p for side, dflt, g, p in cons):
+                            # (a separator *before* an unskipped first separator cannot be reached: it would have
+                            # had this one as its `next`; only some siblings test it, so it is not demanded)
+                            if nc == "sep":
+                                bad.append((pc, nc))
+                n += 1
+                col.check(R, "%s:is_%s:%s:single" % (it, letters, "first" if first else ("internal" if first is False else "any")), not bad,
+                          "peek() for flags {%s} moves the cursor over a separator with neighbours (previous, next) = %s: the first separator of a run is consumed although consecutive separators are not enabled (partial `1.__5` stops between the two separators)" % (letters.upper(), bad[:3]),
+                          f.loc(f.blocks[tb]["ts"]))
+    col.floor(R, "skip paths of single-separator arms", n, 30)
